@@ -1,7 +1,8 @@
 package main
 
 // C18: the determinism discipline as obligations over go/ssa (decided syntactically / by def-use, no solver):
-//   D1  no call to a nondeterministic callee (wall clock, randomness, environment, runtime), no goroutine, no select;
+//   D1  no call to a nondeterministic callee (wall clock, timers, randomness, environment, runtime, libraries that run closures on
+//       other goroutines, map iteration order behind maps.Keys / reflect, %p formatting), no goroutine, no select, no floating point;
 //       time.Now is tolerated only when its value flows exclusively into telemetry calls
 //   D2  every range over a Go map lies in a function that is verified against a contract with the map-range
 //       model (arbitrary iteration order), so its observable effect is proved order-independent
@@ -9,6 +10,7 @@ package main
 
 import (
 	"fmt"
+	"go/constant"
 	"go/token"
 	"go/types"
 	"sort"
@@ -44,6 +46,9 @@ var nondetFuncs = map[string]bool{
 	"(*sync.WaitGroup).Go": true, "(*sync.WaitGroup).Add": true, "(*sync.WaitGroup).Wait": true, "(*sync.Cond).Wait": true, "(*sync.Cond).Signal": true, "(*sync.Cond).Broadcast": true,
 	"time.Since": true, "time.Until": true, "time.After": true, "time.Tick": true, "time.NewTimer": true, "time.NewTicker": true, "time.AfterFunc": true, "time.Sleep": true,
 	"context.WithTimeout": true, "context.WithDeadline": true, "context.AfterFunc": true,
+	// iteration order of a Go map behind a library call
+	"maps.Keys": true, "maps.Values": true, "maps.All": true, "golang.org/x/exp/maps.Keys": true, "golang.org/x/exp/maps.Values": true,
+	"(reflect.Value).MapKeys": true, "(reflect.Value).MapRange": true,
 }
 
 func runDiscipline(s *Session, prop string, verified map[string]bool) *DisciplineResult {
@@ -83,6 +88,11 @@ func runDiscipline(s *Session, prop string, verified map[string]bool) *Disciplin
 					bad = append(bad, "starts a goroutine at "+s.L.Fset.Position(i.Pos()).String())
 				case *ssa.Select:
 					bad = append(bad, "select at "+s.L.Fset.Position(i.Pos()).String())
+				case *ssa.BinOp:
+					// floating point in consensus code: Go may fuse x*y+z on some architectures, so nodes can disagree in the last bit
+					if b, ok := i.X.Type().Underlying().(*types.Basic); ok && b.Info()&types.IsFloat != 0 && (i.Op == token.MUL || i.Op == token.ADD || i.Op == token.SUB || i.Op == token.QUO) {
+						bad = append(bad, "floating-point arithmetic at "+s.L.Fset.Position(i.Pos()).String())
+					}
 				case *ssa.Range:
 					if _, ok := i.X.Type().Underlying().(*types.Map); ok {
 						mapRanges = append(mapRanges, s.L.Fset.Position(i.Pos()).String())
@@ -116,6 +126,18 @@ func runDiscipline(s *Session, prop string, verified map[string]bool) *Disciplin
 						if v, isVal := in.(ssa.Value); !isVal || !onlyTelemetry(v) {
 							bad = append(bad, "time.Now() flows into something other than telemetry at "+s.L.Fset.Position(in.Pos()).String())
 						}
+						continue
+					}
+					if pp == "fmt" || strings.HasSuffix(pp, "cosmossdk.io/errors") {
+						// a pointer value printed into a string (error text, event attribute): differs from process to process
+						for _, a := range i.Common().Args {
+							if c, ok := a.(*ssa.Const); ok && c.Value != nil && c.Value.Kind() == constant.String && strings.Contains(constant.StringVal(c.Value), "%p") {
+								bad = append(bad, "formats a pointer with %p in "+f.String()+" at "+s.L.Fset.Position(in.Pos()).String())
+							}
+						}
+					}
+					if fo := f.Origin(); fo != nil && nondetFuncs[fo.String()] {
+						bad = append(bad, "calls "+fo.String()+" at "+s.L.Fset.Position(in.Pos()).String())
 						continue
 					}
 					if nondetPkgs[pp] || nondetFuncs[f.String()] {
